@@ -62,6 +62,10 @@ CLAIMED = {
    text="TLC enumerates allOf compositions (2-3 subschemas over objects, references, enums, types, arrays, nested oneOf, unsatisfiable conjunctions), builds one definition per permutation and the candidate instances (per-branch instances, their unions), classifies them with Schema!Valid on the allOf itself; the compiled types are run on every (permutation, candidate); TLC validates the recorded acceptance matrix: valid under all subschemas => accepted by every permutation, all permutations agree on acceptance and round-trip output, and a conjunction that merging reports as never (hook) with no valid candidate accepts nothing",
    note="bounded: 21 compositions, all permutations, ~40 candidates each; trusted: TLC, Schema.tla (self-checked), hook verif_merge_all, rustc, serde, vdrive",
    ref="DESIGN.md 6 C09"),
+ "C14": dict(
+   text="TLC explores the settings-vector machine of MC_C14 (replacement | patch of the target definition, conversion schema, global derive, builder, three map types) over a document that uses the target and the conversion schema through every use-site kind; each case is rendered by the real typify, compiled and its unaffected types are executed; TLC validates the syn inventory against ContractSettings (replaced definition absent and replacement named at every use, allOf merged structurally, patched name and derives everywhere, conversion type at every equal subschema, global derive on every type, configured map type everywhere except string-to-any maps) and compares the acceptance/round-trip vectors of unaffected types with the default-settings baseline",
+   note="bounded: 72 settings vectors x one hub document with 16 use sites; trusted: TLC, syn, rustc, serde, vdrive",
+   ref="DESIGN.md 6 C14"),
 }
 NA_REASON = {}
 DEFAULT_NA = "check under construction in this session (DESIGN.md 11); not yet claimed"
